@@ -403,7 +403,11 @@ func (w *World) pump(cs *connState) {
 		var oneErr sipsp.ErrorHdr
 		haveOne := false
 		if w.mon.Resume || w.mon.C03 {
-			w.oneShot = sut.Renew(w.oneShot, cs.c.Cfg)
+			ocfg := cs.c.Cfg
+			if cc, ok := cs.drv.(interface{ CallCfg() sut.Cfg }); ok {
+				ocfg = cc.CallCfg() // a receiver may pass other flags on a later call of the same message
+			}
+			w.oneShot = sut.Renew(w.oneShot, ocfg)
 			sh := w.oneShot
 			var p string
 			// (an accumulating object's earlier header bodies are complete in this prefix: the
